@@ -115,7 +115,19 @@ func judgeLayout(drv *DriverPool, d *LDoc) layoutVerdict {
 			mmso = p[1]
 		case "vis":
 			mvis = p[1]
+		case "fills":
+			if p[1] != "ok" {
+				v.corr = "model: components do not match the content slots of the layout (" + p[1] + ")"
+			}
+		case "content":
+			// the Model's count of author-content tokens = the sentinels the printer handed out (C04_once_components on this document)
+			if p[1] != fmt.Sprint(len(sents)) {
+				v.corr = fmt.Sprintf("model: %s author-content tokens, the document has %d content slots", p[1], len(sents))
+			}
 		}
+	}
+	if v.corr != "" {
+		return v
 	}
 	if mstd != "ok" {
 		v.model["C02"] = mstd
@@ -257,6 +269,10 @@ func variants(d *LDoc) []*LDoc {
 					if k.Col.Leaves[j].Align != "" {
 						add(func(n *LDoc) { get(n).Kids[i].Col.Leaves[j].Align = "" })
 					}
+					for _, cv := range compVariants(k.Col.Leaves[j].Comp) {
+						cv := cv
+						add(func(n *LDoc) { get(n).Kids[i].Col.Leaves[j].Comp = cv })
+					}
 				}
 				if k.Col.Gutter {
 					add(func(n *LDoc) { get(n).Kids[i].Col.Gutter = false })
@@ -338,12 +354,70 @@ func variants(d *LDoc) []*LDoc {
 					h := &n.Blocks[bi]
 					h.Hero = append(h.Hero[:hi:hi], h.Hero[hi+1:]...)
 				})
+				for _, cv := range compVariants(b.Hero[hi].Comp) {
+					cv := cv
+					add(func(n *LDoc) { n.Blocks[bi].Hero[hi].Comp = cv })
+				}
 			}
 		case "raw":
 			if !b.Blank {
 				add(func(n *LDoc) { n.Blocks[bi].Blank = true })
 			}
 		}
+	}
+	return out
+}
+
+// compVariants: one simplification step on a content component (nil = replace it by a plain mj-text): drop a child, clear a flag
+func compVariants(c *LComp) []*LComp {
+	if c == nil {
+		return nil
+	}
+	out := []*LComp{nil}
+	cp := func() *LComp {
+		n := *c
+		n.SocEls = append([]LSocEl(nil), c.SocEls...)
+		n.Links = append([]bool(nil), c.Links...)
+		n.AccEls = append([]LAccEl(nil), c.AccEls...)
+		n.Imgs = append([]bool(nil), c.Imgs...)
+		return &n
+	}
+	for i := range c.SocEls {
+		n := cp()
+		n.SocEls = append(n.SocEls[:i:i], n.SocEls[i+1:]...)
+		out = append(out, n)
+		if c.SocEls[i].Href || c.SocEls[i].Text {
+			m := cp()
+			m.SocEls[i].Href, m.SocEls[i].Text = false, false
+			out = append(out, m)
+		}
+	}
+	for i := range c.Links {
+		n := cp()
+		n.Links = append(n.Links[:i:i], n.Links[i+1:]...)
+		out = append(out, n)
+	}
+	for i := range c.AccEls {
+		n := cp()
+		n.AccEls = append(n.AccEls[:i:i], n.AccEls[i+1:]...)
+		out = append(out, n)
+		if c.AccEls[i].Title >= 0 || c.AccEls[i].Text >= 0 {
+			m := cp()
+			m.AccEls[i] = LAccEl{Title: -1, Text: -1}
+			out = append(out, m)
+		}
+	}
+	for i := range c.Imgs {
+		if len(c.Imgs) > 1 {
+			n := cp()
+			n.Imgs = append(n.Imgs[:i:i], n.Imgs[i+1:]...)
+			out = append(out, n)
+		}
+	}
+	if c.Href || c.Vert || c.Hamb || c.Thumbs || c.Rows > 0 {
+		n := cp()
+		n.Href, n.Vert, n.Hamb, n.Thumbs, n.Rows = false, false, false, false, 0
+		out = append(out, n)
 	}
 	return out
 }
@@ -357,7 +431,25 @@ func docSize(d *LDoc) int {
 		}
 		return 0
 	}
-	leaf := func(l LLeaf) int { return 10 + b2(l.Align != "") + b2(l.Raw && !l.Blank) }
+	leaf := func(l LLeaf) int {
+		n := 10 + b2(l.Align != "") + b2(l.Raw && !l.Blank)
+		if c := l.Comp; c != nil {
+			n += 5 + b2(c.Href) + b2(c.Content) + c.Rows + b2(c.Vert) + b2(c.Hamb) + b2(c.Thumbs) + 3*(len(c.SocEls)+len(c.Links)+len(c.AccEls)+len(c.Imgs))
+			for _, e := range c.SocEls {
+				n += b2(e.Icon) + b2(e.Href) + b2(e.Text)
+			}
+			for _, e := range c.AccEls {
+				n += e.Title + e.Text + 2 + b2(e.IconLeft)
+			}
+			for _, h := range c.Imgs {
+				n += b2(h)
+			}
+			for _, h := range c.Links {
+				n += b2(h)
+			}
+		}
+		return n
+	}
 	var sc func(k LSChild) int
 	sc = func(k LSChild) int {
 		m := 10
@@ -526,6 +618,7 @@ func layoutSpace(tier string, seed int64) []*LDoc {
 			}
 		}
 	}
+	docs = append(docs, componentSpace()...)
 	n := 3000
 	if tier == "thorough" {
 		n = 150000
@@ -536,8 +629,96 @@ func layoutSpace(tier string, seed int64) []*LDoc {
 	return docs
 }
 
+// componentAlphabet: every content component with its skeleton-relevant parameters, systematically: all flag combinations,
+// child lists of length 0, 1, 2 (and one of 3) over the distinguishable child kinds
+func componentAlphabet() []*LComp {
+	var cs []*LComp
+	bools := []bool{false, true}
+	for _, c := range bools {
+		cs = append(cs, &LComp{Kind: "text", Content: c})
+		for _, h := range bools {
+			cs = append(cs, &LComp{Kind: "button", Href: h, Content: c})
+		}
+		cs = append(cs, &LComp{Kind: "image", Href: c}, &LComp{Kind: "table", Content: c})
+	}
+	cs = append(cs, &LComp{Kind: "divider"}, &LComp{Kind: "spacer"}, &LComp{Kind: "table", Rows: 1}, &LComp{Kind: "table", Rows: 2}, &LComp{Kind: "table", Rows: 3})
+	var socAll []LSocEl
+	for _, i := range bools {
+		for _, h := range bools {
+			for _, t := range bools {
+				socAll = append(socAll, LSocEl{i, h, t})
+			}
+		}
+	}
+	socFew := []LSocEl{{false, true, true}, {true, false, false}, {true, true, true}, {true, false, true}}
+	for _, v := range bools {
+		cs = append(cs, &LComp{Kind: "social", Vert: v})
+		for _, e := range socAll {
+			cs = append(cs, &LComp{Kind: "social", Vert: v, SocEls: []LSocEl{e}})
+		}
+		for _, e1 := range socFew {
+			for _, e2 := range socFew {
+				cs = append(cs, &LComp{Kind: "social", Vert: v, SocEls: []LSocEl{e1, e2}})
+			}
+		}
+		cs = append(cs, &LComp{Kind: "social", Vert: v, SocEls: []LSocEl{socFew[2], socFew[0], socFew[3]}}, &LComp{Kind: "social", Vert: v, SocEls: []LSocEl{socFew[0], socFew[2], socFew[0]}})
+	}
+	for _, hb := range bools {
+		for _, ls := range [][]bool{nil, {true}, {false}, {true, true}, {true, false}, {false, true}, {true, true, true}, {false, false, true, true}} {
+			cs = append(cs, &LComp{Kind: "navbar", Hamb: hb, Links: ls})
+		}
+	}
+	var accAll []LAccEl
+	for ti := -1; ti <= 1; ti++ {
+		for tx := -1; tx <= 1; tx++ {
+			for _, il := range bools {
+				accAll = append(accAll, LAccEl{ti, tx, il})
+			}
+		}
+	}
+	cs = append(cs, &LComp{Kind: "accordion"})
+	for _, e := range accAll {
+		cs = append(cs, &LComp{Kind: "accordion", AccEls: []LAccEl{e}})
+	}
+	accFew := []LAccEl{{1, 1, false}, {-1, -1, false}, {1, -1, true}, {-1, 1, false}}
+	for _, e1 := range accFew {
+		for _, e2 := range accFew {
+			cs = append(cs, &LComp{Kind: "accordion", AccEls: []LAccEl{e1, e2}})
+		}
+	}
+	cs = append(cs, &LComp{Kind: "accordion", AccEls: []LAccEl{accFew[0], accFew[1], accFew[2]}})
+	for _, th := range bools {
+		for _, im := range [][]bool{{false}, {true}, {false, false}, {true, false}, {false, true}, {true, true, false}, {false, false, false, true}} {
+			cs = append(cs, &LComp{Kind: "carousel", Thumbs: th, Imgs: im})
+		}
+	}
+	return cs
+}
+
+// componentSpace: every component of the alphabet in every place a content component may stand: alone in a column, behind and
+// in front of a text, in the second column, in a group, in a wrapper, in a hero, in a padded (gutter) column
+func componentSpace() []*LDoc {
+	var docs []*LDoc
+	sec := func(kids ...LSChild) LBlock { return LBlock{K: "section", Sec: &LSection{Kids: kids}} }
+	col := func(ls ...LLeaf) LSChild { return LSChild{K: "col", Col: &LColumn{Leaves: ls}} }
+	for _, c := range componentAlphabet() {
+		l := LLeaf{Comp: c}
+		docs = append(docs,
+			&LDoc{Blocks: []LBlock{sec(col(l))}},
+			&LDoc{Blocks: []LBlock{sec(col(LLeaf{}, l, LLeaf{}))}},
+			&LDoc{Blocks: []LBlock{sec(col(LLeaf{}), col(l))}},
+			&LDoc{Blocks: []LBlock{sec(LSChild{K: "group", Group: []LSChild{col(l), col(LLeaf{})}})}},
+			&LDoc{Blocks: []LBlock{{K: "wrapper", WKids: []LWChild{{Sec: &LSection{Kids: []LSChild{col(l)}}}}}}},
+			&LDoc{Blocks: []LBlock{{K: "hero", Hero: []LLeaf{l}}}},
+			&LDoc{Blocks: []LBlock{{K: "hero", Hero: []LLeaf{{}, l}}}},
+			&LDoc{Blocks: []LBlock{sec(LSChild{K: "col", Col: &LColumn{Gutter: true, Leaves: []LLeaf{l, l}}})}},
+		)
+	}
+	return docs
+}
+
 func layoutRule() string {
-	return "layout documents (abstract trees over sections / columns / groups / wrappers / heroes / raws with exactly the flags the Lean Layout model reads: full-width, background-url, background-color, css-class, text-only, gutter, right-aligned text, blank raw), every content slot carrying a unique sentinel: EXHAUSTIVE for all body sequences of length ≤3 over a 20-block alphabet (8 420 documents) and all wrappers with ≤3 children over 8 child kinds × 4 configurations (2 340), plus seeded random trees. For each: real mjml.Render; the Lean lexer + Spec checkers (driver `oracle`) judge the real bytes (standard view, Outlook view, visibility and order of sentinels, document skeleton); the Lean Layout model (driver `layout`) must produce the same tag/comment skeleton (correspondence). A failing document is delta-debugged to a minimal shape while the same clause keeps failing; signature = minimal shape + clause. Leaf sweep: every content component (text, button, image, divider, spacer, table, raw; navbar / social / accordion / carousel with 0–3 children and an mj-raw before, between and after them, three attribute sets each) in six contexts (column, second column, group, wrapper, hero, padded column), real output judged by the same Spec checkers. Non-trivial = document with ≥2 blocks or a wrapper with ≥1 child; distinct by shape encoding"
+	return "layout documents (abstract trees over sections / columns / groups / wrappers / heroes / raws with exactly the flags the Lean Layout model reads: full-width, background-url, background-color, css-class, text-only, gutter, right-aligned text, blank raw), every content slot carrying a unique sentinel: EXHAUSTIVE for all body sequences of length ≤3 over a 20-block alphabet (8 420 documents) and all wrappers with ≤3 children over 8 child kinds × 4 configurations (2 340), every content component (text, button, image, divider, spacer, table, social, navbar, accordion, carousel) with all its skeleton-relevant parameter combinations and child lists of length 0–3 in eight places (column, between texts, second column, group, wrapper, hero, padded column), plus seeded random trees with components in the columns and heroes. For each: real mjml.Render; the Lean lexer + Spec checkers (driver `oracle`) judge the real bytes (standard view, Outlook view, visibility and order of sentinels, document skeleton); the Lean Layout model (driver `layout`) must produce the same tag/comment skeleton (correspondence). A failing document is delta-debugged to a minimal shape while the same clause keeps failing; signature = minimal shape + clause. Leaf sweep: every content component (text, button, image, divider, spacer, table, raw; navbar / social / accordion / carousel with 0–3 children and an mj-raw before, between and after them, three attribute sets each) in six contexts (column, second column, group, wrapper, hero, padded column), real output judged by the same Spec checkers. Non-trivial = document with ≥2 blocks or a wrapper with ≥1 child; distinct by shape encoding"
 }
 
 func runLayoutProp(prop string) runFn {
